@@ -68,6 +68,9 @@ pub enum Fault {
     ZeroTailAt { at: usize, from: usize },
     /// Dynamic: if call `at` is an existence probe, it answers `false` (failing `stat`).
     ProbeFalseAt { at: usize },
+    /// Dynamic: from call `at` on, `QASM3_PATH` has this value (the host changed its
+    /// environment between two includes).
+    EnvAt { at: usize, value: Option<String> },
 }
 
 impl Fault {
@@ -85,6 +88,7 @@ impl Fault {
             Fault::FlipAt { .. } => "flip_at",
             Fault::ZeroTailAt { .. } => "zero_tail_at",
             Fault::ProbeFalseAt { .. } => "probe_false_at",
+            Fault::EnvAt { .. } => "env_at",
         }
     }
     pub fn at(&self) -> Option<usize> {
@@ -96,7 +100,8 @@ impl Fault {
             | Fault::ShortReadAt { at, .. }
             | Fault::FlipAt { at, .. }
             | Fault::ZeroTailAt { at, .. }
-            | Fault::ProbeFalseAt { at } => Some(*at),
+            | Fault::ProbeFalseAt { at }
+            | Fault::EnvAt { at, .. } => Some(*at),
         }
     }
 }
@@ -258,6 +263,7 @@ impl Fault {
             }
             Fault::ZeroTailAt { at, from } => json!({"kind":"zero_tail_at","at":at,"from":from}),
             Fault::ProbeFalseAt { at } => json!({"kind":"probe_false_at","at":at}),
+            Fault::EnvAt { at, value } => json!({"kind":"env_at","at":at,"value":value}),
         }
     }
 
@@ -297,6 +303,10 @@ impl Fault {
             },
             "probe_false_at" => Fault::ProbeFalseAt {
                 at: get_usize(v, "at")?,
+            },
+            "env_at" => Fault::EnvAt {
+                at: get_usize(v, "at")?,
+                value: v.get("value").and_then(|x| x.as_str()).map(|s| s.to_string()),
             },
             other => return Err(format!("unknown fault kind `{}`", other)),
         })
